@@ -690,3 +690,16 @@ add("C12", "benign-sonar-component-rpartition", "core_codemods/sonar/results.py"
 add("C07", "scan-decides-on-first-element", "core_codemods/flask_json_response_type.py",
     [("                        # it may use variable or other expreesions that resolves to Content-Type\n                        case _:\n                            return True\n", "                        # it may use variable or other expreesions that resolves to Content-Type\n                        case _:\n                            return True\n                    return False\n                case _:\n                    return False\n")],
     "fire", "R-SCAN-ALL-ELEMENTS", "_has_content_type_key")
+BC2 = "codemodder/codemods/base_codemod.py"
+add("C06", "benign-worker-renamed", BC2,
+    [("            self._process_file, context=context, results=results, rules=rules", "            self._process_one_file, context=context, results=results, rules=rules"),
+     ("    def _process_file(\n", "    def _process_one_file(\n")],
+    "silent")
+add("C11", "benign-worker-renamed", BC2,
+    [("            self._process_file, context=context, results=results, rules=rules", "            self._process_one_file, context=context, results=results, rules=rules"),
+     ("    def _process_file(\n", "    def _process_one_file(\n")],
+    "silent")
+add("C10", "benign-worker-renamed", BC2,
+    [("            self._process_file, context=context, results=results, rules=rules", "            self._process_one_file, context=context, results=results, rules=rules"),
+     ("    def _process_file(\n", "    def _process_one_file(\n")],
+    "silent")
